@@ -38,11 +38,11 @@ NoRef == -1
 
 RealHeads == {"bare", "qualified"}
 IsRefShape(k) == k \in {"ref=7", "ref=0", "ref=max", "ref=07", "ref=x", "ref:?=x", "ref=over", "ref=str", "ref=neg",
-                        "ref=hex", "ref=suffixed", "ref=strkey"}
+                        "ref=hex", "ref=suffixed", "ref=strkey", "ref=strkeycmt"}
 (* a plain decimal literal that fits u32; the property statement fixes nothing about other literal forms *)
-RefLiteralValue(k) == CASE k = "ref=7" -> 7 [] k = "ref=0" -> 0 [] k = "ref=max" -> 99 [] k = "ref=07" -> 7 [] k = "ref=strkey" -> 7
+RefLiteralValue(k) == CASE k = "ref=7" -> 7 [] k = "ref=0" -> 0 [] k = "ref=max" -> 99 [] k = "ref=07" -> 7 [] k \in {"ref=strkey", "ref=strkeycmt"} -> 7
                         [] OTHER -> NoRef
-RefIsLiteral(k) == k \in {"ref=7", "ref=0", "ref=max", "ref=07", "ref=strkey"}     \* "ref" = 7: the key written as a string literal
+RefIsLiteral(k) == k \in {"ref=7", "ref=0", "ref=max", "ref=07", "ref=strkey", "ref=strkeycmt"}     \* "ref" = 7: the key written as a string literal
 RefUnspecified(k) == k \in {"ref=hex", "ref=suffixed"}      \* outside what C13 pins down: predicted "any"
 RefOnlyUntouched(k) == k \in {"ref=neg"}                     \* not a "simple" value: must be left alone, report unspecified
 
